@@ -92,6 +92,9 @@ def maxAll (l : Coll α) : α := maxL (l.map Prod.fst)
 def solidityHaibach (l : Coll α) (k : α) : α :=
   sumL (l.map fun p => (p.2 * Transc.pow (p.1 / maxOcc l) k) / total l)
 
+/-- `solidity.fkm(collective, k)`: `haibach(collective, k) ** (1. / k)` -/
+def solidityFkm (l : Coll α) (k : α) : α := Transc.pow (solidityHaibach l k) (1.0 / k)
+
 /-- `MinerElementary.lifetime_multiple` -/
 def lifetimeMultipleElementary (c : Curve α) (l : Coll α) : α := 1.0 / solidityHaibach l c.k1
 
@@ -179,5 +182,92 @@ def gassnerCyclesHaibachW (ppf : α → α) (w : Woehler.Curve α) (l : Coll α)
 /-- `MinerElementary(w).gassner(collective)`: the NATIVE curve with `ND * A_ele` and `k_2 = k_1` -/
 def gassnerCurveW (w : Woehler.Curve α) (l : Coll α) : Woehler.Curve α :=
   { w with ND := w.ND * lifetimeMultipleElementaryW w l, k2 := Woehler.Life.finite w.k1 }
+
+/-! ## the accessor objects as a state machine
+
+`wc.gassner_miner_elementary`, `wc.gassner_miner_haibach` (`MinerElementary(wc)`, `MinerHaibach(wc)`) and `wc.fatigue`
+are OBJECTS a script keeps and calls many times with different collectives
+(`me = MinerElementary(wc); for c in collectives: me.gassner_cycles(c)`).  What an object carries from one call to the
+next is its class and the validated curve (`self._obj` after `_validate`: the seven values `k_1 k_2 SD ND TN TS
+failure_probability`); the code keeps nothing else (no cache, no counters) and no method writes to `self._obj`
+(`gassner`, `miner_elementary()`, `transform_to_failure_probability` work on copies).  The state machine below says
+exactly that: `step` answers a call from the state and the arguments and hands the state on unchanged.  The driver runs
+whole call sequences through `run` (threading the state), the harness runs the same sequences on ONE real object and
+compares every answer and the final state - a per-object cache or a method that modifies the curve shows as a
+disagreement.  `none` = the class has no such method. -/
+
+/-- the class of the accessor object -/
+inductive Kind where
+  | elementary   -- `series.gassner_miner_elementary`
+  | haibach      -- `series.gassner_miner_haibach`
+  | fatigue      -- `series.fatigue`
+  deriving DecidableEq, Repr
+
+/-- `fatigue.damage` directly (`own`) or after `miner_original()` / `miner_elementary()` / `miner_haibach()` -/
+inductive Variant where
+  | own | original | elementary | haibach
+  deriving DecidableEq, Repr
+
+/-- what the object holds between two calls -/
+structure Obj (α : Type) where
+  kind : Kind
+  curve : Woehler.Curve α
+
+/-- one method call with its argument -/
+inductive Op (α : Type) where
+  | lifetimeMultiple (l : Coll α)       -- `obj.lifetime_multiple(collective)`
+  | gassnerCycles (l : Coll α)          -- `obj.gassner_cycles(collective)`
+  | effectiveDamageSum (l : Coll α)     -- `obj.effective_damage_sum(collective)`
+  | gassnerND (l : Coll α)              -- `obj.gassner(collective).ND`   (Miner elementary only)
+  | finiteLifeFactor (N : α)            -- `obj.finite_life_factor(N)`
+  | damageSum (v : Variant) (l : Coll α) -- `obj[.miner_xxx()].damage(collective).sum()`   (fatigue only)
+
+def variantCurve (v : Variant) (w : Woehler.Curve α) : Woehler.Curve α :=
+  match v with
+  | .own => w
+  | .original => Woehler.minerOriginal w
+  | .elementary => Woehler.minerElementary w
+  | .haibach => Woehler.minerHaibach w
+
+/-- the value a call returns, from the state and the argument -/
+def answer (ppf : α → α) (o : Obj α) : Op α → Option α
+  | .lifetimeMultiple l =>
+    match o.kind with
+    | .elementary => some (lifetimeMultipleElementaryW o.curve l)
+    | .haibach => some (lifetimeMultipleHaibachW ppf o.curve l)
+    | .fatigue => none
+  | .gassnerCycles l =>
+    match o.kind with
+    | .elementary => some (gassnerCyclesElementaryW ppf o.curve l)
+    | .haibach => some (gassnerCyclesHaibachW ppf o.curve l)
+    | .fatigue => none
+  | .effectiveDamageSum l =>
+    match o.kind with
+    | .elementary => some (effectiveDamageSum (lifetimeMultipleElementaryW o.curve l))
+    | .haibach => some (effectiveDamageSum (lifetimeMultipleHaibachW ppf o.curve l))
+    | .fatigue => none
+  | .gassnerND l =>
+    match o.kind with
+    | .elementary => some (gassnerCurveW o.curve l).ND
+    | _ => none
+  | .finiteLifeFactor N =>
+    match o.kind with
+    | .fatigue => none
+    | _ => some (finiteLifeFactor (ofWoehler o.curve) N)
+  | .damageSum v l =>
+    match o.kind with
+    | .fatigue => some (damageSumW ppf (variantCurve v o.curve) l)
+    | _ => none
+
+/-- one call: the new state of the object and the returned value.  The state is handed on as it is. -/
+def step (ppf : α → α) (o : Obj α) (op : Op α) : Obj α × Option α := (o, answer ppf o op)
+
+/-- a sequence of calls on ONE object: final state and the answers in call order -/
+def run (ppf : α → α) : Obj α → List (Op α) → Obj α × List (Option α)
+  | o, [] => (o, [])
+  | o, op :: ops =>
+    let r := step ppf o op
+    let rest := run ppf r.1 ops
+    (rest.1, r.2 :: rest.2)
 
 end PylifeVerif.Miner
